@@ -340,7 +340,7 @@ def pred_history(real_out, calls_json, truth_json):
     return True, "no exception; staleness, gating and position bounds hold"
 
 
-def cases(ctx):
+def _cases(ctx):
     rng = ctx.rng
     for _ in range(ctx.n(40, 400)):
         g = gen_gap_history(rng)
@@ -360,3 +360,12 @@ def cases(ctx):
                    trivial=not truth)
         if rng.random() < 0.25:
             yield dict(op=None, real=("h:props.C17.pipeline_case", [list(rx), cj]), expect="same", tag="pipeline-case")
+
+
+def cases(ctx):
+    """_cases with the operation of the source-generated model attached: Decode.process_raw as translated from the
+    current source (with every decoder it calls), run by gendriver on the same history"""
+    for c in _cases(ctx):
+        if c["real"][0] == "h:props.C17.run_history" and c.get("op", "").startswith("trk "):
+            c["gop"] = "!trk decode.Decode_process_raw " + c["op"][4:]
+        yield c
